@@ -6,7 +6,22 @@
 #include <fcntl.h>
 #include <unistd.h>
 
+#if defined(__has_feature)
+#if __has_feature(address_sanitizer)
+#define NVH_ASAN 1
+#endif
+#endif
+#if defined(__SANITIZE_ADDRESS__)
+#define NVH_ASAN 1
+#endif
+
 namespace vh {
+// AddressSanitizer reserves terabytes of address space: an RLIMIT_AS cannot be combined with it
+#ifdef NVH_ASAN
+static const bool kCanLimitAS = false;
+#else
+static const bool kCanLimitAS = true;
+#endif
 int forkRun(const std::function<int()>& fn, int seconds, std::string& why, size_t memLimitMB) {
 	fflush(stdout);
 	fflush(stderr);
@@ -16,7 +31,7 @@ int forkRun(const std::function<int()>& fn, int seconds, std::string& why, size_
 		return -1;
 	}
 	if (pid == 0) {
-		if (memLimitMB) {
+		if (memLimitMB && kCanLimitAS) {
 			struct rlimit rl;
 			rl.rlim_cur = rl.rlim_max = memLimitMB * 1024ull * 1024ull;
 			setrlimit(RLIMIT_AS, &rl);
@@ -64,7 +79,7 @@ size_t runForkedCases(size_t n, const std::string& outPath, int secondsPerCase, 
 		pid_t pid = fork();
 		if (pid < 0) return crashes + 1;
 		if (pid == 0) {
-			if (memLimitMB) {
+			if (memLimitMB && kCanLimitAS) {
 				struct rlimit rl;
 				rl.rlim_cur = rl.rlim_max = memLimitMB * 1024ull * 1024ull;
 				setrlimit(RLIMIT_AS, &rl);
